@@ -73,7 +73,7 @@ Proof.
   set (cc := 1 / sqrt (sigma * 2 * a + 1)) in *.
   assert (Hsc : 0 < sigma * (cc * cc)).
   { rewrite Hcc. apply Rmult_lt_0_compat; [assumption|]. apply Rinv_0_lt_compat. nra. }
-  set (y := vscal cc (vlin cc x (- (sigma * cc)) u)).
+  set (y := vscal cc (vsub (vscal cc x) (vscal (sigma * cc) u))).
   assert (Ly : length y = n) by (unfold y; auto with vlen).
   destruct (S (sigma * (cc * cc)) y Hsc Ly) as (p & Ep & Pp).
   exists p. split.
@@ -127,10 +127,10 @@ Theorem sound_composition k n f pf A mu : rows_ok k n A -> 0 < mu ->
   sound n (repeat 1 n) (fun z => f (mvec A z)) (prox_composition pf n A mu).
 Proof.
   intros RA Hmu HAA S sigma x Hs Hx.
-  destruct (S (sigma * mu) (mvec A x) ltac:(nra) ltac:(apply (mvec_len k n); assumption)) as (q & Eq & Pq).
+  destruct (S (mu * sigma) (mvec A x) ltac:(nra) ltac:(apply (mvec_len k n); assumption)) as (q & Eq & Pq).
   eexists. split.
-  - unfold prox_composition. cbn [sig_scale]. numR. rewrite Eq. cbn [rmap]. reflexivity.
-  - rewrite metric_ones in * by nra. replace (/ (sigma * mu)) with (/ (mu * sigma)) in Pq by (f_equal; ring).
+  - unfold prox_composition. cbn [sig_scale_l]. numR. rewrite Eq. cbn [rmap]. reflexivity.
+  - rewrite metric_ones in * by nra.
     apply (rule_composition k n); auto.
 Qed.
 
